@@ -34,6 +34,7 @@ def gen_case(rng):
             'inline_b': [[('ib', i, j) for j in range(inline_b)] for i in range(n)],
             'inline_k': [[('ik', i, j) for j in range(inline_k)] for i in range(n)],
             'each': rng.random() < 0.5, 'additional': rng.random() < 0.3,
+            'via': rng.choice(['direct', 'direct', 'direct', 'from_dict', 'from_dict', 'replay']),
             'bbox_format': rng.choice(['pascal_voc_3d', 'pascal_voc_3d', 'coco_3d', 'yolo_3d', 'dicaugment_3d']),
             'kp_format': rng.choice(['xyz', 'xyz', 'zyx', 'xyza', 'xyzs', 'xyzas', 'xyzsa'])}
     # a window that keeps most annotations and drops some (a small window leaves nothing to compare)
@@ -118,7 +119,21 @@ def check(case, viol):
         data['keypoints2'] = list(reversed(kps))
     R.seed(case['seed'])
     try:
-        res = pipe(**data)
+        via = case.get('via', 'direct')
+        if via == 'from_dict':
+            # the pipeline rebuilt from its own serialised form (what save / load hand back)
+            pipe = A.from_dict(A.to_dict(pipe))
+            res = pipe(**data)
+        elif via == 'replay':
+            # ... or the recorded augmentation replayed on the same annotations
+            rp = A.ReplayCompose(pipe.transforms, bbox_params=pipe.processors['bboxes'].params if 'bboxes' in pipe.processors else None,
+                                 keypoint_params=pipe.processors['keypoints'].params if 'keypoints' in pipe.processors else None,
+                                 additional_targets=add if (use_boxes or not add) else {'keypoints2': 'keypoints'})
+            import copy as _copy
+            first = rp(**_copy.deepcopy(data))
+            res = A.ReplayCompose.replay(first['replay'], **_copy.deepcopy(data))
+        else:
+            res = pipe(**data)
     except Exception as e:  # noqa
         viol.append({'site': 'C05:raises', 'case': case, 'observed': '%s: %s' % (type(e).__name__, e),
                      'expected': 'no exception'})
